@@ -6,6 +6,6 @@ Extraction Language OCaml.
 Set Extraction Optimize.
 Extraction "model_json.ml"
   N.add N.mul N.sub N.div_eucl N.compare Z.add Z.mul Z.sub Z.div_eucl Z.compare Z.of_N Z.to_N Z.opp
-  JsonModel.parse JsonModel.stringify JsonModel.normalize JsonModel.cprint JsonModel.cdenote
+  JsonModel.parse JsonModel.parse_history JsonModel.stringify JsonModel.normalize JsonModel.cprint JsonModel.cdenote
   JsonModel.cval_wf JsonModel.is_container JsonModel.rfc_ok JsonModel.jv_eqb JsonModel.definedb
   JsonModel.scan_number JsonModel.unescape JsonModel.escape_json.
